@@ -100,9 +100,13 @@ class Protocol:
             return [(st, "ret", ("f", 1.0)), (s2, "ret", ("f", 0.0))]
 
         def finish_cycle(ip, st, args, info):
+            # what the argument means is read off Metrics::finish_cycle itself (1: it forgets the outstanding debt,
+            # 0: it carries it over), so a bool and an equivalent two-variant enum are the same thing here
+            from gcv import rules_debt
             b = args[1]
-            st.event("finish_cycle", b[1] if b[0] == "i" else "?")
-            st.g["finish_cycle"] = st.g.get("finish_cycle", ()) + ((b[1] if b[0] == "i" else "?"),)
+            v = rules_debt.finish_cycle_mode(self.prog, b) if b[0] in ("i", "adt") else "?"
+            st.event("finish_cycle", v)
+            st.g["finish_cycle"] = st.g.get("finish_cycle", ()) + (v,)
             return [(st, "ret", UNIT)]
 
         P["context::Context::mark_one"] = mark_one
